@@ -139,3 +139,21 @@ for _tag, _name, _pop, _res, _exc in (
         raises=({_exc: "True"} if _exc else {}), raises_props=["C16", "C18"],
         ensures=[] if _exc else [("C16.the_entry_of_that_name_and_source_population", "result is %s" % _res)],
         defined_props=["C16", "C18"])
+
+
+# ---- parameters.Parameter.__init__ (C06 / C16): a new parameter starts with calibration factor 1 for every population it has data for and for all
+# populations, no skip window, and linear interpolation
+def _env_par_init(it):
+    from pyvc.interp import PyObjV
+    from pyvc.core import Opaque
+    from pyvc import source
+
+    ts = {"adults": Opaque("series adults"), "children": Opaque("series children")}
+    return {"self": PyObjV("Parameter", source.load("parameters"), {}), "name": "p", "ts": ts, "TS": ts}
+
+
+CONTRACTS["parameters:Parameter.__init__"] = dict(
+    schema=schema, make_env=_env_par_init, call_stubs={"NamedItem.__init__": (lambda it, obj, name: obj.fields.__setitem__("name", name))},
+    ensures=[("C06+C16.a_new_parameter_is_uncalibrated", "self.y_factor == {'adults': 1.0, 'children': 1.0} and self.meta_y_factor == 1.0 and self.skip_function == {'adults': None, 'children': None}"),
+             ("C06.it_interpolates_linearly_and_holds_the_series_given", "self._interpolation_method == 'linear' and self.ts is TS and self.name == 'p'")],
+    defined_props=["C06", "C16"])
